@@ -10,7 +10,9 @@
        do / end / blank
        C       the suppression comment on its own line(s)
    There is exactly one suppression comment: kind next (`disable-next-line`), line (`disable-line`) or
-   block (`disable`), with code list all / X / Y.
+   block (`disable`), with code list all (none written) / X / Y / U / XU, where U is a name that is not a
+   diagnostic code of this analyzer (a code of another tool, a typo): a comment WITH a code list never
+   suppresses a code that is not listed, so `: U` suppresses nothing and `: X, U` exactly X.
 
    Stated(r): the property text, read on rows -- next: the row directly after the comment; line: the
    comment's own row; block: every row of the innermost do..end enclosing the comment, the whole file
@@ -47,7 +49,10 @@ NoRow == [kind |-> "-"]
 
 NoC == [kind |-> "-", codes |-> "-", pre |-> 0, post |-> 0]
 Kinds == {"next", "line", "block"}
-CodeLists == {"all", "X", "Y"}
+CodeLists == {"all", "X", "Y", "U", "XU"}
+\* the diagnostic codes a written code list names (U names none)
+Listed(codes) == CASE codes = "X" -> {"X"} [] codes = "Y" -> {"Y"} [] codes = "U" -> {} [] codes = "XU" -> {"X"}
+                   [] OTHER -> {}
 InlineComments == {[kind |-> k, codes |-> c, pre |-> 0, post |-> 0] : k \in Kinds, c \in CodeLists}
 OwnComments == {[kind |-> "next", codes |-> c, pre |-> a, post |-> b] : c \in CodeLists, a \in 0..1, b \in 0..1}
           \cup {[kind |-> k, codes |-> c, pre |-> 0, post |-> 0] : k \in {"line", "block"}, c \in CodeLists}
@@ -79,7 +84,7 @@ CRow(L) == CHOOSE i \in 1..Len(L) : L[i].cm # NoC
 HasComment(L) == \E i \in 1..Len(L) : L[i].cm # NoC
 Cm(L) == L[CRow(L)].cm
 CodeOf(r) == r.k   \* "X" or "Y"
-CodeMatch(cm, code) == cm.codes = "all" \/ cm.codes = code
+CodeMatch(cm, code) == cm.codes = "all" \/ code \in Listed(cm.codes)
 
 \* do-row of the innermost block that strictly encloses row i (0 = top level), and its end-row
 DoStack(L, i) ==
@@ -154,7 +159,8 @@ CodedEqStated == (CheckAgree /\ HasComment(Layout)) =>
 KindCode(k) == CASE k = "X" -> 1 [] k = "Y" -> 2 [] k = "do" -> 3 [] k = "end" -> 4 [] k = "blank" -> 5 [] k = "C" -> 6
 CmCode(cm) == IF cm = NoC THEN 0 ELSE
               (CASE cm.kind = "next" -> 1 [] cm.kind = "line" -> 2 [] cm.kind = "block" -> 3) * 5
-              + (CASE cm.codes = "all" -> 0 [] cm.codes = "X" -> 1 [] cm.codes = "Y" -> 2) * 3 + cm.pre * 7 + cm.post * 11
+              + (CASE cm.codes = "all" -> 0 [] cm.codes = "X" -> 1 [] cm.codes = "Y" -> 2
+                   [] cm.codes = "U" -> 3 [] cm.codes = "XU" -> 4) * 3 + cm.pre * 7 + cm.post * 11
 RowHash(r) == KindCode(r.k) * 13 + r.ind * 3 + CmCode(r.cm)
 RECURSIVE LayoutHash(_, _)
 LayoutHash(L, i) == IF i > Len(L) THEN 0 ELSE (i + 1) * RowHash(L[i]) + LayoutHash(L, i + 1)
